@@ -21,8 +21,10 @@ VERIF = Path(__file__).resolve().parent.parent
 LEAN = VERIF / "lean"
 REPO = Path(os.environ.get("RTFLITE_REPO", "/repo"))
 DRIVER = LEAN / ".lake" / "build" / "bin" / "driver"
-EVIDENCE = VERIF / "evidence"
-REPLAYS = VERIF / "replays"
+# seeded-change runs (tools/seedcheck.py) redirect evidence and replays so that committed evidence always comes from
+# runs against /repo itself
+EVIDENCE = Path(os.environ.get("VERIF_EVIDENCE_DIR", VERIF / "evidence"))
+REPLAYS = Path(os.environ.get("VERIF_REPLAYS_DIR", VERIF / "replays"))
 CORPUS = VERIF / "corpus"
 KNOWN = VERIF / "known_findings.json"
 NCPU = min(16, os.cpu_count() or 4)
@@ -284,8 +286,15 @@ class Result:
         self.disagreements.append((case, why))
 
 
+def _rel(p: Path) -> str:
+    try:
+        return str(p.relative_to(VERIF))
+    except ValueError:
+        return str(p)
+
+
 def write_replay(prop: str, payload: dict) -> Path:
-    REPLAYS.mkdir(exist_ok=True)
+    REPLAYS.mkdir(parents=True, exist_ok=True)
     h = hashlib.sha256(json.dumps(payload, sort_keys=True, default=str).encode()).hexdigest()[:10]
     p = REPLAYS / f"{prop}-{h}.json"
     p.write_text(json.dumps(payload, indent=1, default=str, ensure_ascii=False))
@@ -295,7 +304,7 @@ def write_replay(prop: str, payload: dict) -> Path:
 def finish(res: Result, build: dict, rule: str, trusted: list[str], assumptions: list[str],
            explanation: str = "", known_lines: list[str] | None = None) -> int:
     """Apply the verdict logic of DESIGN.md §5, write evidence, print lines, return exit code."""
-    EVIDENCE.mkdir(exist_ok=True)
+    EVIDENCE.mkdir(parents=True, exist_ok=True)
     prop = res.prop
     violations = 0
     lines = []
@@ -303,7 +312,7 @@ def finish(res: Result, build: dict, rule: str, trusted: list[str], assumptions:
         case, why = res.failures[0]
         p = write_replay(prop, dict(property=prop, kind="failing-input", why=why, case=case,
                                     seed=res.seed, tier=res.tier, other_failures=len(res.failures) - 1))
-        lines.append(f"VIOLATION property={prop} replay={p.relative_to(VERIF)}")
+        lines.append(f"VIOLATION property={prop} replay={_rel(p)}")
         violations = len(res.failures)
     elif not build["proof_ok"] or res.disagreements:
         what = []
@@ -317,7 +326,7 @@ def finish(res: Result, build: dict, rule: str, trusted: list[str], assumptions:
         p = write_replay(prop, dict(property=prop, kind="unchecked", broken=what, seed=res.seed, tier=res.tier,
                                     note="no input on which the property fails was found; the named theorem/"
                                          "correspondence no longer checks, so the property is no longer shown to hold"))
-        lines.append(f"VIOLATION property={prop} replay={p.relative_to(VERIF)} no-failing-input-found")
+        lines.append(f"VIOLATION property={prop} replay={_rel(p)} no-failing-input-found")
         violations = 1
     for l in known_lines or []:
         print(l)
